@@ -44,12 +44,24 @@ c43_steps([T|Ts], [step(Out, S, Other)|Rs]) :-
     c43_state(S, Other),
     c43_steps(Ts, Rs).
 
-% restore the default entries of the tracked names
+% restore the default entries of the tracked names. The table is also put in a
+% canonical HIDDEN condition: op(0,T,N) leaves a priority-0 entry carrying the
+% removed specifier in the op directory, so the same zero entries (xfx, fy, xf
+% for foo and bar; xf for -) are written here, whatever was removed before.
 c43_restore(BarDefault) :-
     c43_clear(foo), c43_clear(bar), c43_clear(-), c43_clear('|'),
+    c43_zero(foo), c43_zero(bar),
+    catch(op(0, xf, -), _, true),
     catch(op(200, fy, -), _, true),
     catch(op(500, yfx, -), _, true),
-    (   BarDefault = op(P, T) -> catch(op(P, T, '|'), _, true) ; true ).
+    (   BarDefault = op(P, T) -> catch(op(P, T, '|'), _, true)
+    ;   catch(op(0, xfy, '|'), _, true)
+    ).
+
+c43_zero(N) :-
+    catch(op(0, xfx, N), _, true),
+    catch(op(0, fy, N), _, true),
+    catch(op(0, xf, N), _, true).
 
 c43_clear(N) :-
     findall(T, current_op(_, T, N), Ts),
@@ -60,6 +72,7 @@ c43_clear_([T|Ts], N) :- catch(op(0, T, N), _, true), c43_clear_(Ts, N).
 % c43_hist(Transitions, BarDefault, Steps, Final): run a history from the
 % (restored) default table, observe after every step, restore, observe again.
 c43_hist(Ts, BarDefault, Steps, final(S, Other)) :-
+    c43_restore(BarDefault),          % canonical start, whatever ran before on this machine
     c43_steps(Ts, Steps),
     c43_restore(BarDefault),
     c43_state(S, Other).
@@ -67,6 +80,7 @@ c43_hist(Ts, BarDefault, Steps, final(S, Other)) :-
 % c43_inspect: replay a history, then run the current_op pattern queries and
 % the parse probes in the reached state, then restore.
 c43_inspect(Ts, BarDefault, PIdx, Probes, insp(Steps, All, Qs, Parses), final(S, Other)) :-
+    c43_restore(BarDefault),
     c43_steps(Ts, Steps),
     findall(op(P,T,N), current_op(P,T,N), All),
     c43_queries(PIdx, Qs),
